@@ -19,28 +19,33 @@ MinS(S) == CHOOSE x \in S : \A y \in S : x <= y
 
 EmptyLanes == [jil |-> [l \in Lanes |-> NOJOB],
                stack |-> [i \in 1 .. L |-> i - 1],     \* unused_lanes: lane 0 is popped first
-               init |-> {}]                             \* _snow3g_init_done
+               init |-> {},                             \* _snow3g_init_done
+               ks |-> [l \in Lanes |-> NOJOB]]          \* ghost: the job whose key and IV the key stream of the lane was started from
 Busy(st) == { l \in Lanes : st.jil[l] # NOJOB }
 
 \* process_job_uia2 .. process_completed_job_submit_uia2 for lane idx
 Finish(st, idx) ==
-    [st |-> [jil |-> [st.jil EXCEPT ![idx] = NOJOB], stack |-> <<idx>> \o st.stack, init |-> st.init \ {idx}],
-     ret |-> st.jil[idx]]
+    [st |-> [jil |-> [st.jil EXCEPT ![idx] = NOJOB], stack |-> <<idx>> \o st.stack, init |-> st.init \ {idx}, ks |-> st.ks],
+     ret |-> st.jil[idx],
+     fresh |-> st.ks[idx] = st.jil[idx]]       \* the digest used the key stream of this very job
+\* SNOW3G_AUTH_INIT_5: key stream of every lane of S started from the job in it
+InitRound(st, S) == [st EXCEPT !.init = S, !.ks = [l \in Lanes |-> IF l \in S THEN st.jil[l] ELSE st.ks[l]]]
 
 OSubmit(st, j) ==
     LET lane == Head(st.stack)
         st1 == [st EXCEPT !.jil[lane] = j, !.stack = Tail(st.stack)]
-    IN IF st1.stack # <<>> THEN [st |-> st1, ret |-> NOJOB]
-       ELSE IF st1.init = {} THEN Finish([st1 EXCEPT !.init = Lanes], 0)       \* init_all_lanes_uia2, bsf -> lane 0
+    IN IF st1.stack # <<>> THEN [st |-> st1, ret |-> NOJOB, fresh |-> TRUE]
+       ELSE IF st1.init = {} THEN Finish(InitRound(st1, Lanes), 0)             \* init_all_lanes_uia2, bsf -> lane 0
        ELSE Finish(st1, MinS(st1.init))                                        \* next initialised lane
 
 OFlush(st) ==
-    IF Busy(st) = {} THEN [st |-> st, ret |-> NOJOB]
+    IF Busy(st) = {} THEN [st |-> st, ret |-> NOJOB, fresh |-> TRUE]
     ELSE IF st.init # {} THEN Finish(st, MinS(st.init))
-    ELSE Finish([st EXCEPT !.init = Busy(st)], MinS(Busy(st)))
+    ELSE Finish(InitRound(st, Busy(st)), MinS(Busy(st)))
 
 \* invariants of the machine (checked through Chain.tla / InitQ model below)
 TypeOK(st) == /\ st.init \subseteq Busy(st)
               /\ Len(st.stack) + Cardinality(Busy(st)) = L
               /\ \A i \in 1 .. Len(st.stack) : st.jil[st.stack[i]] = NOJOB
+              /\ \A l \in st.init : st.ks[l] = st.jil[l]
 =============================================================================
